@@ -1014,6 +1014,34 @@ func propC14(r *Run) {
 			}
 		}
 	}
+	// --- declarations the regenerated table reports as not reaching the payload (bin/check hands
+	// them over when `payload_complete` fails): for a switch, search the two-run history
+	// (without, with, without) on several bases
+	for _, item := range strings.Split(os.Getenv("VERIF_C14_UNCOVERED"), ";") {
+		f := strings.Split(item, ":") // command:class:kind:long
+		if len(f) != 4 || f[1] != "opt" || f[2] != "Switch" {
+			continue
+		}
+		var cmd *cliCmd
+		for i := range c14Cmds {
+			if c14Cmds[i].name == f[0] {
+				cmd = &c14Cmds[i]
+			}
+		}
+		if cmd == nil {
+			continue
+		}
+		var cands []cliHist
+		for k := 0; k < 12; k++ {
+			base := c14Base(r.rng, cmd, primaries[k%len(primaries)]).run()
+			with := base
+			with.args = append([]string{"--" + f[3]}, base.args...)
+			cands = append(cands, histOf("sweep/uncovered-option", base, with, base))
+		}
+		h := cands[0]
+		h.alts = cands[1:]
+		hists = append(hists, h)
+	}
 	// --- the witnesses of the two repaired defects, on every run
 	{
 		ex := cliChoice{cmd: c14Cmd("extract"), primary: inFile("NC_001422_part.gb"), pos: [][]string{{"CDS"}}, sec: map[int]cliInput{},
